@@ -76,7 +76,7 @@ impl Env {
         };
         txtpp::Config {
             base_dir,
-            shell_cmd: c.shell.clone(),
+            shell_cmd: c.shell.replace("@ROOT@", &root.display().to_string()),
             inputs: c
                 .inputs
                 .iter()
